@@ -167,6 +167,9 @@ func cmdVC(args []string) int {
 			if r.R.Status == "error" || r.R.Status == "unknown" {
 				fmt.Printf("         out: %s\n", firstLines(r.R.Output, 4))
 			}
+			if r.R.Status == "sat" {
+				fmt.Printf("         model: %v\n", parseGetValue(r.R.Output))
+			}
 			if r.R.Status != "unsat" && !r.O.Cover {
 				if rr := tryReplay(p, r, "/tmp"); rr != nil {
 					fmt.Printf("         replay: confirmed=%v inputs=%v real=%v model=%v (%v)\n", rr["confirmed"], rr["inputs"], rr["real_outputs"], rr["model_outputs"], rr["reason"])
@@ -185,6 +188,13 @@ func cmdVC(args []string) int {
 
 func solveAll(obls []*Obligation, scripts []string, valueNames [][]string, dir string, timeoutMs int, thorough bool) []*oblResult {
 	results := make([]*oblResult, len(obls))
+	// obligations with optional extra assumptions are first tried without them
+	plain := make([]string, len(obls))
+	for i, o := range obls {
+		if len(o.Extra) > 0 {
+			plain[i], _ = ObligationScriptPlain(o)
+		}
+	}
 	var wg sync.WaitGroup
 	sem := make(chan struct{}, 16)
 	for i := range obls {
@@ -198,7 +208,19 @@ func solveAll(obls []*Obligation, scripts []string, valueNames [][]string, dir s
 		go func() {
 			defer wg.Done()
 			defer func() { <-sem }()
-			r := Solve(scripts[i], dir, obls[i].Name, timeoutMs, thorough, valueNames[i], obls[i].Cover)
+			var r *SolverResult
+			if plain[i] != "" {
+				short := timeoutMs / 3
+				r = Solve(plain[i], dir, obls[i].Name+".plain", short, false, nil, true)
+				if r.Status != "unsat" {
+					r2 := Solve(scripts[i], dir, obls[i].Name, timeoutMs, thorough, valueNames[i], obls[i].Cover)
+					r2.Ms += r.Ms
+					r2.Tried = append(r.Tried, r2.Tried...)
+					r = r2
+				}
+			} else {
+				r = Solve(scripts[i], dir, obls[i].Name, timeoutMs, thorough, valueNames[i], obls[i].Cover)
+			}
 			results[i] = &oblResult{O: obls[i], R: r}
 		}()
 	}
